@@ -493,6 +493,8 @@ func TestC13WebSocketSendTimeout(t *testing.T) {
 			opt.PingDuration = ping
 			desc := map[string]any{"send_timeout_ms": opt.SendTimeout.Milliseconds(), "ping": opt.PingDuration.String()}
 			f := &flooder{started: make(chan struct{}), ended: make(chan time.Time, 1)}
+			time.Sleep(time.Millisecond)
+			baseG, _ := mocrelayGoroutines()
 			rig := newWSRig(opt, f)
 			c, err := dial(rig.url)
 			if err != nil {
@@ -518,6 +520,22 @@ func TestC13WebSocketSendTimeout(t *testing.T) {
 			}
 			c.CloseNow()
 			rig.close()
+			// whatever the session started (write loop, read loop, a keep-alive ping still waiting
+			// for its pong) is gone afterwards
+			if dropped {
+				deadline := time.Now().Add(5 * time.Second)
+				for {
+					cur, sample := mocrelayGoroutines()
+					if cur <= baseG {
+						break
+					}
+					if time.Now().After(deadline) {
+						hx.Fail(t, ev.Failure{Property: "C13", Signature: "goroutine-leak", Clause: "every goroutine the session started has exited (WebSocket session dropped for a peer that stopped reading)", Case: desc,
+							Observed: fmt.Sprintf("%d goroutines with a mocrelay frame, baseline %d; one of them: %s", cur, baseG, firstLines(sample, 14))})
+					}
+					time.Sleep(2 * time.Millisecond)
+				}
+			}
 			if !dropped {
 				hx.Fail(t, ev.Failure{Property: "C13", Signature: "stalled-peer-not-dropped", Clause: "a WebSocket peer that stops reading is dropped once a write has been blocked for the send timeout, whatever the other relay options are",
 					Case: desc, Observed: fmt.Sprintf("handler session still running %v after the flood started", bound+2*time.Second), Expected: "ended within send timeout + 3 s"})
@@ -999,6 +1017,69 @@ func TestC13RouterManySessions(t *testing.T) {
 			time.Sleep(2 * time.Millisecond)
 		}
 		col.Label("scenario:router-many-sessions")
+		col.Case(true, hx.JSON(desc), func() any { return desc })
+	})
+}
+
+// TestC13WebSocketIdlePing: an idle session with keep-alive pings whose peer has stopped
+// reading (so a ping is waiting for its pong) ends by a peer disconnect or by cancellation
+// of the request context: ServeHTTP returns promptly and nothing of the session stays behind.
+func TestC13WebSocketIdlePing(t *testing.T) {
+	col := ev.For("C13").SetRule(c13Rule)
+	rapid.Check(t, func(t *rapid.T) {
+		opt := openOptions()
+		opt.PingDuration = time.Duration(rapid.IntRange(5, 40).Draw(t, "ping_ms")) * time.Millisecond
+		opt.SendTimeout = rapid.SampledFrom([]time.Duration{10 * time.Second, time.Minute}).Draw(t, "send_timeout")
+		ending := rapid.SampledFrom([]string{"peer-disconnect", "server-cancel"}).Draw(t, "ending")
+		wait := time.Duration(rapid.IntRange(1, 4).Draw(t, "pings_before_the_end")) * opt.PingDuration
+		desc := map[string]any{"ping": opt.PingDuration.String(), "send_timeout": opt.SendTimeout.String(), "ending": ending, "peer": "connected, never reads", "handler": "idle"}
+		time.Sleep(time.Millisecond)
+		baseG, _ := mocrelayGoroutines()
+		relay := mocrelay.NewRelay(newRecHandler(), opt)
+		returned := make(chan time.Time, 1)
+		baseCtx, cancelBase := context.WithCancel(context.Background())
+		defer cancelBase()
+		srv := httptest.NewUnstartedServer(http.HandlerFunc(func(w http.ResponseWriter, r *http.Request) {
+			relay.ServeHTTP(w, r)
+			returned <- time.Now()
+		}))
+		srv.Config.BaseContext = func(net.Listener) context.Context { return baseCtx }
+		srv.Start()
+		defer func() {
+			srv.CloseClientConnections()
+			srv.Close()
+		}()
+		c, err := dial("ws" + strings.TrimPrefix(srv.URL, "http"))
+		if err != nil {
+			t.Fatalf("dial: %v", err)
+		}
+		defer c.CloseNow()
+		time.Sleep(wait + 2*time.Millisecond)
+		t0 := time.Now()
+		if ending == "peer-disconnect" {
+			c.CloseNow()
+		} else {
+			cancelBase()
+		}
+		select {
+		case <-returned:
+		case <-time.After(5 * time.Second):
+			hx.Fail(t, ev.Failure{Property: "C13", Signature: "websocket-cancel-slow", Clause: "when the peer goes away or the context is cancelled, serving returns promptly (idle WebSocket session with a ping in flight)", Case: desc, Observed: "Relay.ServeHTTP has not returned after 5 s"})
+		}
+		col.Add("ws_idle_end_latency_ms_sum", time.Since(t0).Milliseconds())
+		deadline := time.Now().Add(5 * time.Second)
+		for {
+			cur, sample := mocrelayGoroutines()
+			if cur <= baseG {
+				break
+			}
+			if time.Now().After(deadline) {
+				hx.Fail(t, ev.Failure{Property: "C13", Signature: "goroutine-leak", Clause: "every goroutine the session started has exited (a keep-alive ping was waiting for its pong when the session ended)", Case: desc,
+					Observed: fmt.Sprintf("%d goroutines with a mocrelay frame, baseline %d; one of them: %s", cur, baseG, firstLines(sample, 14))})
+			}
+			time.Sleep(2 * time.Millisecond)
+		}
+		col.Label("websocket-idle-ping:" + ending)
 		col.Case(true, hx.JSON(desc), func() any { return desc })
 	})
 }
